@@ -8,7 +8,8 @@ import (
 )
 
 func init() {
-	props["C14"] = &prop{gen: genC14, exec: execC14}
+	props["C14"] = &prop{gen: genC14}
+	execs["C14"] = execC14
 }
 
 func genC14(tier string, seed uint64, emit func(string)) {
